@@ -10,8 +10,18 @@ import "runtime"
 var VerifLock func(site string, try func() bool)
 
 func verifLock(try func() bool) {
-	if try() {
-		return
+	// The critical sections of these mutexes are a few instructions long
+	// (getters and setters), except where Close holds one across
+	// Session.Logout. Contention with a goroutine that is running right now
+	// (both sides of an io.Pipe hand-over run side by side for a moment) must
+	// stay invisible to the scheduler - it would otherwise see a lock wait or
+	// not depending on real timing; only a holder that is parked at a
+	// simulation point is waited for there.
+	for i := 0; i < 50000; i++ {
+		if try() {
+			return
+		}
+		runtime.Gosched()
 	}
 	if f := VerifLock; f != nil {
 		f("gosmtp:lock", try)
@@ -20,4 +30,26 @@ func verifLock(try func() bool) {
 	for !try() {
 		runtime.Gosched()
 	}
+}
+
+// verifSortedConns: Server.Close walks a map of connections; the order in
+// which it closes them (and logs their sessions out) must not depend on Go's
+// randomized map iteration.
+func verifSortedConns(m map[*Conn]struct{}) []*Conn {
+	var cs []*Conn
+	for c := range m {
+		cs = append(cs, c)
+	}
+	key := func(c *Conn) string {
+		if c.conn != nil && c.conn.RemoteAddr() != nil {
+			return c.conn.RemoteAddr().String()
+		}
+		return ""
+	}
+	for i := 1; i < len(cs); i++ {
+		for j := i; j > 0 && key(cs[j]) < key(cs[j-1]); j-- {
+			cs[j], cs[j-1] = cs[j-1], cs[j]
+		}
+	}
+	return cs
 }
